@@ -3,6 +3,8 @@
 From Coq Require Import NArith List.
 From ACPI Require Import Lib.Bytes Lib.Sx Lib.Machine Impl.AmlCore Impl.AmlTerm Proofs.PkgLenP Proofs.PathP Proofs.DescP
   Proofs.RefuseP.
+From ACPI Require Import Impl.Table Impl.Pptt Impl.Hmat Impl.Rhct Impl.Rimt Impl.Viot Impl.Cedt Spec.Layout
+  Proofs.TableP Proofs.PpttWalkP Proofs.HmatWalkP Proofs.RhctWalkP Proofs.RimtWalkP Proofs.ViotWalkP Proofs.CedtWalkP.
 Import ListNotations.
 Open Scope N_scope.
 
@@ -42,6 +44,96 @@ Theorem c18_address_range :
     max < min \/ m <= max - min + 1 -> enc_desc (DAddr w ty ca rw min max tr) = None.
 Proof. exact addr_space_refuse. Qed.
 
+(* ================================================================================================
+   Table sites.  For every caller-controlled count or length inside a table entry: if the addition is accepted the emitted field
+   holds the TRUE count / length, and an input whose count / length does not fit its field is refused.  The additions
+   [*_addition] do not depend on the build profile (pptt, rhct, rimt, viot, cedt) or are quantified over it (hmat), and
+   [add_step] refuses whenever the addition does, so every refusal holds in debug and release builds alike.  That every entry's
+   own length field is exact in every accepted history of every table is c03_tables (Props/C03.v). *)
+
+(* PPTT processor node: one-byte length 20 + 4 * (number of private resources), 32-bit resource count *)
+Theorem c18_pptt_processor_node :
+  (forall s parent uid bs e, pptt_addition s (SL [SA 1; parent; SA uid; SL bs]) = Some e ->
+     field_at (a_bytes e) 1 1 = N.of_nat (length (a_bytes e)) /\
+     N.of_nat (length (a_bytes e)) = 20 + 4 * N.of_nat (pptt_resources bs) /\
+     field_at (a_bytes e) 16 4 = N.of_nat (pptt_resources bs)) /\
+  (forall s parent uid bs, 2 ^ 8 <= 20 + 4 * N.of_nat (pptt_resources bs) ->
+     pptt_addition s (SL [SA 1; parent; SA uid; SL bs]) = None).
+Proof. split; [exact pptt_proc_exact | exact pptt_proc_refuses]. Qed.
+
+(* HMAT memory-side cache: 16-bit SMBIOS handle count and 32-bit structure length; system locality structure: 32-bit length and
+   32-bit initiator / target counts (guarded since the repair 2e6aec4) *)
+Theorem c18_hmat_structures :
+  (forall md s pd size total level assoc policy line hs e,
+     hmat_addition md s (SL [SA 3; SA pd; SA size; SA total; SA level; SA assoc; SA policy; SA line; SL hs]) = Some e ->
+     field_at (a_bytes e) 30 2 = N.of_nat (length hs) /\
+     field_at (a_bytes e) 4 4 = N.of_nat (length (a_bytes e)) /\
+     N.of_nat (length (a_bytes e)) = 32 + 2 * N.of_nat (length hs)) /\
+  (forall md s pd size total level assoc policy line hs, 2 ^ 16 <= N.of_nat (length hs) ->
+     hmat_addition md s (SL [SA 3; SA pd; SA size; SA total; SA level; SA assoc; SA policy; SA line; SL hs]) = None) /\
+  (forall md s o e, hmat_addition md s o = Some e ->
+     N.of_nat (length (a_bytes e)) < 2 ^ 32 /\ field_at (a_bytes e) 4 4 = N.of_nat (length (a_bytes e))) /\
+  (forall md s lt dt mts unit ni nt bs, ni * nt < 2 ^ 64 -> 2 ^ 32 <= 32 + 4 * ni + 4 * nt + 2 * (ni * nt) ->
+     hmat_addition md s (SL [SA 2; SA lt; SA dt; SA mts; SA unit; SA ni; SA nt; SL bs]) = None).
+Proof.
+  split; [exact hmat_msc_exact|]. split; [exact hmat_msc_refuses|]. split; [|exact hmat_sysloc_refuses].
+  intros md s o e H. pose proof (hmat_addition_fits md s o e H) as Hf. split; [exact Hf|]. exact (hmat_length_exact md s o e H Hf).
+Qed.
+
+(* RHCT: 16-bit node lengths, ISA string length, hart-info offset count *)
+Theorem c18_rhct_nodes :
+  (forall s o e, rhct_addition s o = Some e ->
+     field_at (a_bytes e) 2 2 = N.of_nat (length (a_bytes e)) /\ N.of_nat (length (a_bytes e)) < 2 ^ 16) /\
+  (forall s str sb, sx_bytes str = Some sb -> 2 ^ 16 <= N.of_nat (isa_true_len (length sb)) ->
+     rhct_addition s (SL [SA 1; str]) = None) /\
+  (forall s uid isa cmos e, rhct_addition s (SL [SA 4; SA uid; isa; SL cmos]) = Some e ->
+     field_at (a_bytes e) 6 2 = N.of_nat (hart_true_count cmos)) /\
+  (forall s uid isa cmos, 2 ^ 16 <= N.of_nat (hart_true_len cmos) -> rhct_addition s (SL [SA 4; SA uid; isa; SL cmos]) = None).
+Proof.
+  split; [intros s o e H; split; [exact (rhct_node_length_exact s o e H) | exact (rhct_node_length_fits s o e H)]|].
+  split; [exact rhct_isa_length_refuses|]. split; [exact rhct_hart_count_exact | exact rhct_hart_length_refuses].
+Qed.
+
+(* RIMT: 16-bit device lengths, interrupt-wire and id-mapping counts *)
+Theorem c18_rimt_devices :
+  (forall s o e, rimt_addition s o = Some e ->
+     field_at (a_bytes e) 2 2 = N.of_nat (length (a_bytes e)) /\ N.of_nat (length (a_bytes e)) < 2 ^ 16) /\
+  (forall s id base pci prox wires e, rimt_addition s (SL [SA 1; SA id; base; pci; prox; wires]) = Some e ->
+     field_at (a_bytes e) 2 2 = N.of_nat (iommu_true_len wires) /\ length (a_bytes e) = iommu_true_len wires /\
+     field_at (a_bytes e) 28 2 = N.of_nat (opt_list_count wires)) /\
+  (forall s id base pci prox wires, 2 ^ 16 <= N.of_nat (iommu_true_len wires) ->
+     rimt_addition s (SL [SA 1; SA id; base; pci; prox; wires]) = None) /\
+  (forall s id seg ats pri maps, 2 ^ 16 <= N.of_nat (pcierc_true_len maps) ->
+     rimt_addition s (SL [SA 2; SA id; SA seg; SA ats; SA pri; maps]) = None) /\
+  (forall s id name nm maps, sx_bytes name = Some nm -> 2 ^ 16 <= N.of_nat (platform_true_len nm maps) ->
+     rimt_addition s (SL [SA 3; SA id; name; maps]) = None).
+Proof.
+  split; [intros s o e H; split; [exact (rimt_device_length_exact s o e H) | exact (rimt_device_length_fits s o e H)]|].
+  split; [exact rimt_iommu_exact|]. split; [exact rimt_iommu_length_refuses|].
+  split; [exact rimt_pcierc_length_refuses | exact rimt_platform_length_refuses].
+Qed.
+
+(* CEDT CXIMS: one-byte bitmap count, 16-bit record length *)
+Theorem c18_cedt_cxims :
+  (forall s gran maps e, cedt_addition s (SL [SA 3; SA gran; SL maps]) = Some e ->
+     field_at (a_bytes e) 7 1 = N.of_nat (length maps) /\
+     field_at (a_bytes e) 2 2 = 8 + 8 * N.of_nat (length maps) /\
+     N.of_nat (length (a_bytes e)) = 8 + 8 * N.of_nat (length maps)) /\
+  (forall s gran maps, (256 <= length maps)%nat -> cedt_addition s (SL [SA 3; SA gran; SL maps]) = None).
+Proof. split; [exact cedt_cxims_count_exact | exact cedt_cxims_refuses]. Qed.
+
+(* VIOT: the 16-bit node count and node offset of the table: in every accepted history the count field is the number of nodes
+   and the table stays below 2^16 bytes; an addition that would carry the 16-bit offset past 2^16 is refused in both profiles *)
+Theorem c18_viot_table :
+  (forall md c ops s0 s, viot_new c = Some s0 -> run_adds viot_addition md s0 ops = Some s ->
+     field_at (tbl_image s) 36 2 = N.of_nat (length (t_ents s)) /\ N.of_nat (length (tbl_image s)) < 2 ^ 16) /\
+  (forall md s o e, t_kind s = KViot -> viot_addition s o = Some e -> 2 ^ 16 <= t_hoff s + N.of_nat (length (a_bytes e)) ->
+     add_step viot_addition md s o = None).
+Proof.
+  split; [|exact viot_offset_refuses].
+  intros md c ops s0 s Hn Hr. split; [exact (proj1 (viot_node_count_exact md c ops s0 s Hn Hr)) | exact (proj1 (viot_history_small md c ops s0 s Hn Hr))].
+Qed.
+
 Print Assumptions c18_package_elements.
 Print Assumptions c18_package_count_field.
 Print Assumptions c18_method_arguments.
@@ -50,3 +142,9 @@ Print Assumptions c18_name_segments.
 Print Assumptions c18_pkg_length.
 Print Assumptions c18_framed_object.
 Print Assumptions c18_address_range.
+Print Assumptions c18_pptt_processor_node.
+Print Assumptions c18_hmat_structures.
+Print Assumptions c18_rhct_nodes.
+Print Assumptions c18_rimt_devices.
+Print Assumptions c18_cedt_cxims.
+Print Assumptions c18_viot_table.
